@@ -251,7 +251,14 @@ def judgeFinish (s : JudgeSt) : String :=
   | none =>
     let cfg : Cfg := ⟨s.quotas⟩
     let h := s.hist.reverse
-    if holds cfg h then "ok"
+    if holds cfg h && !(s.level == 2 && monotone h && !arrivalExactFrom cfg [] h) then "ok"
+    else if holds cfg h then
+      let rec firstBad : History → History → Option Obs
+        | _, [] => none
+        | before, o :: rest => if refusedWithRoom cfg before o then some o else firstBad (before ++ [o]) rest
+      match firstBad [] h with
+      | some o => s!"fail - refused-although-every-quota-of-the-chain-has-room-even-counting-every-arrival q={o.op.q} r={o.op.r} t={o.op.t}"
+      | none => "fail - refused-with-room"
     else if !boundHolds cfg h then
       let ss := sRun cfg SSt.init h
       let bad := h.find? (fun o => !boundAt cfg ss o)
